@@ -47,10 +47,12 @@ static __thread int tl_in_submit;
 
 static struct {
 	uint64_t cases, items, works, completions, continuations, from_completion, null_items, bursts, puts, puts_busy, puts_from_completion,
-		 starts, stops, max_concurrent, idle_deaths, threads, children, time_advances, obligations, discharged;
+		 starts, stops, max_concurrent, idle_deaths, threads, children, time_advances, obligations, discharged, create_failures;
 } S;
 
-void hk_thread_create(unsigned long th, int ret) { (void)th; if (!ret) { atomic_fetch_add(&n_thr_created, 1); tl_created++; } }
+static int g_tc_fault;
+static _Atomic long create_failures;	/* pthread_create failed (injected) in this case: queued items may legitimately wait for a worker that never comes */
+void hk_thread_create(unsigned long th, int ret) { (void)th; if (!ret) { atomic_fetch_add(&n_thr_created, 1); tl_created++; } else atomic_fetch_add(&create_failures, 1); }
 void hk_thread_join(unsigned long th) { (void)th; atomic_fetch_add(&n_thr_joined, 1); tl_joined++; }
 
 static int64_t delays_ns[] = { 0, 1000000, 5 * VT_NS, 10 * VT_NS - 1000000, 10 * VT_NS - 1, 10 * VT_NS, 10 * VT_NS + 1, 10 * VT_NS + 1000000, 15 * VT_NS, 25 * VT_NS };
@@ -396,7 +398,7 @@ static int scn_next_phase(void) { return 0; }
 void hk_idle(void)
 {
 	int i, n = nitems, bad = 0;
-	if (atomic_load(&mt_phase))
+	if (atomic_load(&mt_phase) || atomic_load(&create_failures))
 		return;
 	/* every thread is blocked: an item that was submitted and has not completed can only be rescued by an unrelated time-out */
 	for (i = 0; i < n && bad < 3; i++) {
@@ -418,6 +420,12 @@ static void scn_quiescent_check(void)
 		struct item *it = &items[i];
 		if (!it->submitted)
 			continue;
+		if (atomic_load(&create_failures)) {
+			/* a worker could not be started: completion is not owed (C12/C13 are not quantified over that fault); exactly-once still is */
+			if (it->works > 1 || it->completions > 1 || it->completions > it->works)
+				mon_viol("C12", "item-twice-under-fault", g_method, "item %d: work ran %d time(s), completion %d time(s)", i, (int)it->works, (int)it->completions);
+			continue;
+		}
 		S.obligations++;
 		if (it->works != 1 || it->completions != 1) {
 			mon_viol("C12", "item-incomplete", g_method,
@@ -461,6 +469,14 @@ static void run_case(long id, uint64_t seed)
 	vt_set_single(0);
 	atomic_store(&nitems, 0);
 	atomic_store(&ilv_hash, 0x55);
+	S.create_failures += atomic_exchange(&create_failures, 0);
+	if (g_tc_fault) {
+		/* the k-th thread the library tries to create in this case cannot be created (once, or from then on) */
+		char plan[64];
+		snprintf(plan, sizeof(plan), "thread_create:EAGAIN@%u%s", 1 + rng_n(&r, 6), rng_pct(&r, 40) ? "+" : "");
+		vt_fault_clear();
+		vt_fault_plan(plan);
+	}
 	nl = 1 + (int)rng_pct(&r, 30);
 	mt_start_loops(nl, cs);
 	mt_join_loops();
@@ -498,6 +514,7 @@ int main(int argc, char **argv)
 	uint64_t seed = (uint64_t)arg_ll(argc, argv, "--seed", 1);
 
 	g_prop = arg_str(argc, argv, "--prop", "C12");
+	g_tc_fault = (int)arg_ll(argc, argv, "--tc-fault", 0);
 	vt_init();
 	vt_set_perturb((int)arg_ll(argc, argv, "--perturb", 1));
 	iv_set_fatal_msg_handler(mt_fatal);
@@ -507,12 +524,12 @@ int main(int argc, char **argv)
 		run_case(i, seed);
 	mon_printf("STAT method=%s cases=%llu items=%llu work_runs=%llu completions=%llu continuations=%llu submitted_from_completion=%llu null_pool_items=%llu "
 		   "bursts=%llu pool_puts=%llu puts_while_work_running=%llu puts_from_completion=%llu worker_starts=%llu worker_stops=%llu max_concurrent=%llu "
-		   "iv_thread_children=%llu obligations=%llu discharged=%llu threads_created=%llu shim_quiescences=%llu time_advances=%llu violations=%d\n",
+		   "iv_thread_children=%llu obligations=%llu discharged=%llu threads_created=%llu thread_create_failures_injected=%llu shim_quiescences=%llu time_advances=%llu violations=%d\n",
 		   g_method, (unsigned long long)S.cases, (unsigned long long)S.items, (unsigned long long)S.works, (unsigned long long)S.completions,
 		   (unsigned long long)S.continuations, (unsigned long long)S.from_completion, (unsigned long long)S.null_items,
 		   (unsigned long long)S.bursts, (unsigned long long)S.puts, (unsigned long long)S.puts_busy, (unsigned long long)S.puts_from_completion,
 		   (unsigned long long)S.starts, (unsigned long long)S.stops, (unsigned long long)S.max_concurrent, (unsigned long long)S.children,
-		   (unsigned long long)S.obligations, (unsigned long long)S.discharged, (unsigned long long)vt_stats.threads_created,
+		   (unsigned long long)S.obligations, (unsigned long long)S.discharged, (unsigned long long)vt_stats.threads_created, (unsigned long long)(S.create_failures + create_failures),
 		   (unsigned long long)vt_stats.quiescences, (unsigned long long)vt_stats.time_advances, mon_viol_total);
 	mon_printf("DONE\n");
 	return 0;
